@@ -217,7 +217,9 @@ package logqlengine
 //@ func buildLineFilter
 //@   logical s string
 //@   ensures[line-semantics] ret1 == nil && !stage.IP ==> typeis[*LineFilter](ret0) && as[*LineFilter](ret0).matcher.Match(s) == specMatch(stage.Op, false, stage.Value, stage.Re, s)
+//@   capture bm = call(buildIPMatcher, 0)
 //@   ensures[ip-filter]      ret1 == nil && stage.IP ==> typeis[*IPLineFilter](ret0)
+//@   ensures[ip-negation-wraps-the-whole-scan] stage.IP && bm_called ==> bm_a0 == ite(stage.Op == logql.OpNotEq, logql.OpEq, stage.Op) && bm_a1 == stage.Value && (ret1 == nil ==> as[*IPLineFilter](ret0).negate == (stage.Op == logql.OpNotEq) && same(as[*IPLineFilter](ret0).matcher, bm_r0))
 
 // ---- the record loop (C01, C08)
 
@@ -362,6 +364,7 @@ package logqlengine
 //@   loop 0 invariant rangeindex+1 <= len(rl.pairs)
 //@   loop 0 body_ensures[current-pair] same(p, rl.pairs[rangeindex])
 //@   loop 0 body_ensures[moves-value-to-target] head(has(set.labels, rl.pairs[rangeindex+1].Label)) && p.To != p.Label ==> has(set.labels, p.To) && same(set.labels[p.To], head(set.labels[rl.pairs[rangeindex+1].Label])) && !has(set.labels, p.Label)
+//@   loop 0 body_ensures[renaming-a-label-to-itself-keeps-it] head(has(set.labels, rl.pairs[rangeindex+1].Label)) && p.To == p.Label ==> has(set.labels, p.Label) && same(set.labels[p.Label], head(set.labels[rl.pairs[rangeindex+1].Label]))
 //@   loop 0 body_ensures[absent-source-is-a-no-op] !head(has(set.labels, rl.pairs[rangeindex+1].Label)) ==> has(set.labels, other) == head(has(set.labels, other)) && same(set.labels[other], head(set.labels[other]))
 //@   loop 0 body_ensures[other-labels-untouched] other != p.Label && other != p.To ==> has(set.labels, other) == head(has(set.labels, other)) && same(set.labels[other], head(set.labels[other]))
 
@@ -382,18 +385,18 @@ package logqlengine
 //@   ensures[output-is-the-expansion-alone] ex_r0 == nil ==> ret0 == bufferContent(lf.buf) && ex_recv == lf.tmpl && as[*bytes.Buffer](ex_a0) == lf.buf
 
 //@ func (*DropLabels).dropPair
-//@   loop 0 invariant rangeindex+1 <= len(ms)
-//@   loop 0 invariant forall(0, rangeindex+1, func(j int) bool { return ms[j].Match(val.AsString()) })
-//@   ensures[named-without-matchers] has(k.drop, label) && !has(k.matchers, label) ==> ret0
+//@   loop 0 invariant rangeindex+1 <= len(k.matchers[label])
+//@   loop 0 invariant[no-item-matched-so-far] forall(0, rangeindex+1, func(j int) bool { return !k.matchers[label][j].Match(val.AsString()) })
+//@   ensures[a-named-label-is-decided-by-its-name] has(k.drop, label) ==> ret0
 //@   ensures[not-mentioned] !has(k.drop, label) && !has(k.matchers, label) ==> !ret0
-//@   ensures[single-matcher-decides] !has(k.drop, label) && has(k.matchers, label) && len(k.matchers[label]) == 1 ==> ret0 == k.matchers[label][0].Match(val.AsString())
+//@   ensures[any-matching-item-decides] !has(k.drop, label) ==> ret0 == exists(0, len(k.matchers[label]), func(j int) bool { return k.matchers[label][j].Match(val.AsString()) })
 
 //@ func (*KeepLabels).keepPair
-//@   loop 0 invariant rangeindex+1 <= len(ms)
-//@   loop 0 invariant forall(0, rangeindex+1, func(j int) bool { return ms[j].Match(val.AsString()) })
-//@   ensures[named-without-matchers] has(k.keep, label) && !has(k.matchers, label) ==> ret0
+//@   loop 0 invariant rangeindex+1 <= len(k.matchers[label])
+//@   loop 0 invariant[no-item-matched-so-far] forall(0, rangeindex+1, func(j int) bool { return !k.matchers[label][j].Match(val.AsString()) })
+//@   ensures[a-named-label-is-decided-by-its-name] has(k.keep, label) ==> ret0
 //@   ensures[not-mentioned] !has(k.keep, label) && !has(k.matchers, label) ==> !ret0
-//@   ensures[single-matcher-decides] !has(k.keep, label) && has(k.matchers, label) && len(k.matchers[label]) == 1 ==> ret0 == k.matchers[label][0].Match(val.AsString())
+//@   ensures[any-matching-item-decides] !has(k.keep, label) ==> ret0 == exists(0, len(k.matchers[label]), func(j int) bool { return k.matchers[label][j].Match(val.AsString()) })
 
 //@ func (*Decolorize).Process
 //@   modifies nothing
@@ -597,6 +600,7 @@ package logqlengine
 //@   loop 0 body_ensures[current-matcher] same(lm, sel.Matchers[rangeindex])
 //@   loop 1 modifies *
 //@   loop 1 body_ensures[continues-only-while-line-is-unmodified] !typeis[*logql.LineFormat](stage) && !typeis[*logql.DecolorizeExpr](stage) && !typeis[*logql.UnpackLabelParser](stage)
+//@   loop 1 body_ensures[never-moves-a-filter-in-front-of-a-stateful-stage] !typeis[*logql.DistinctFilter](stage)
 //@   loop 1 body_ensures[offloads-only-supported-plain-line-filters] len(cond.params.Line) == head(len(cond.params.Line))+1 ==> typeis[*logql.LineFilter](stage) && !as[*logql.LineFilter](stage).IP && ls_called && ls_r0 && ls_a0 == as[*logql.LineFilter](stage).Op && same(cond.params.Line[len(cond.params.Line)-1], *as[*logql.LineFilter](stage))
 //@   loop 1 body_ensures[at-most-one-per-stage] len(cond.params.Line) == head(len(cond.params.Line)) || len(cond.params.Line) == head(len(cond.params.Line))+1
 //@ func addDuration
@@ -656,7 +660,8 @@ package logqlengine
 //@   modifies nothing
 //@   loop 0 modifies procs[*]
 //@   loop 0 invariant rangeindex+1 <= len(procs) && len(procs) == len(unwrap.Filters) && le != nil
-//@   ensures[count-rate-absent-count-lines] (expr.Op == logql.RangeOpCount || expr.Op == logql.RangeOpRate || expr.Op == logql.RangeOpAbsent) ==> ret1 == nil && typeis[*lineCounterExtractor](ret0)
+//@   ensures[count-rate-absent-count-lines] (expr.Op == logql.RangeOpCount || (expr.Op == logql.RangeOpRate && old(expr.Range.Unwrap) == nil) || expr.Op == logql.RangeOpAbsent) ==> ret1 == nil && typeis[*lineCounterExtractor](ret0)
+//@   ensures[rate-over-unwrapped-values-samples-the-label] expr.Op == logql.RangeOpRate && old(expr.Range.Unwrap) != nil && ret1 == nil ==> typeis[*labelsExtractor](ret0)
 //@   ensures[bytes-count-bytes] (expr.Op == logql.RangeOpBytes || expr.Op == logql.RangeOpBytesRate) ==> ret1 == nil && typeis[*bytesCounterExtractor](ret0)
 //@   ensures[others-need-unwrap] (expr.Op == logql.RangeOpAvg || expr.Op == logql.RangeOpSum || expr.Op == logql.RangeOpMin || expr.Op == logql.RangeOpMax || expr.Op == logql.RangeOpStdvar || expr.Op == logql.RangeOpStddev || expr.Op == logql.RangeOpQuantile || expr.Op == logql.RangeOpFirst || expr.Op == logql.RangeOpLast || expr.Op == logql.RangeOpRateCounter) && old(expr.Range.Unwrap) == nil ==> ret1 != nil
 //@   ensures[unwrap-label] ret1 == nil && typeis[*labelsExtractor](ret0) ==> as[*labelsExtractor](ret0).label == old(expr.Range.Unwrap.Label)
@@ -714,20 +719,29 @@ package logqlengine
 // Decoding a JSON value builds a fresh pdata value; nothing of the caller's state is written
 // (pdata containers are dependencies: their methods do not touch the program heap).
 //@ func parseValue
+//@   capture ni = call(num.Int64, 0)
+//@   capture nf = call(num.Float64, 0)
 //@   modifies nothing
+//@   ensures[a-number-that-does-not-fit-is-still-a-value] (ni_called && ni_r1 != nil) || (nf_called && nf_r1 != nil) ==> ret1 && ret2 == nil
 // Array elements / object members: a null (or a failed) element is skipped, never copied: the
 // zero pdata value must not reach CopyTo (it would be dereferenced there).
 //@ func parseValue$1
 //@   capture pv = call(parseValue, 0)
 //@   capture ct = call(elem.CopyTo, 0)
 //@   modifies nothing
+//@   capture a0 = call(slice.AppendEmpty, 0)
+//@   capture a1 = call(slice.AppendEmpty, 1)
 //@   ensures[only-decoded-elements-are-copied] ct_called ==> pv_called && pv_r1 && pv_r2 == nil
+//@   ensures[every-element-keeps-its-place] pv_called && pv_r2 == nil ==> (a0_called != a1_called)
 //@   ensures[decode-error-surfaces] pv_r2 != nil ==> ret0 != nil
 //@ func parseValue$2
 //@   capture pv = call(parseValue, 0)
 //@   capture ct = call(elem.CopyTo, 0)
 //@   modifies nothing
+//@   capture p0 = call(m.PutEmpty, 0)
+//@   capture p1 = call(m.PutEmpty, 1)
 //@   ensures[only-decoded-members-are-copied] ct_called ==> pv_called && pv_r1 && pv_r2 == nil
+//@   ensures[every-member-keeps-its-key] pv_called && pv_r2 == nil ==> (p0_called != p1_called) && (p0_called ==> p0_a0 == k) && (p1_called ==> p1_a0 == k)
 //@   ensures[decode-error-surfaces] pv_r2 != nil ==> ret0 != nil
 
 // The default build of decodeStr views the string's bytes through package unsafe (no copy);
@@ -1029,7 +1043,14 @@ package logqlengine
 //@   loop 1 modifies nothing
 //@   loop 1 invariant len(s) == old(len(s)) && len(s) >= 2 && rangeindex+1 <= len(s)
 
+// `|= ip(x)` keeps a line iff one of the addresses found in it matches; `!= ip(x)` keeps exactly
+// the other lines (negation of the whole scan, not of each address).
 //@ func (*IPLineFilter).Process
+//@   capture m4 = call(lf.matcher.Match, 0)
+//@   capture m6 = call(lf.matcher.Match, 1)
+//@   ensures[line-unchanged] ret0 == line
+//@   ensures[kept-iff-an-address-matched-unless-negated] keep == (((m4_called && m4_r0) || (m6_called && m6_r0)) != lf.negate)
+//@   loop 0 invariant[no-address-matched-so-far] !(m4_called && m4_r0) && !(m6_called && m6_r0)
 //@   loop 0 invariant 0 <= i && i <= len(line)
 //@   loop 0 decreases len(line) - i
 //@ func isHexDigit
